@@ -1,0 +1,52 @@
+//! Verification hooks. This file is only compiled with `--cfg daniel729_chess_verif`.
+//!
+//! Nothing in here is reachable in a normal build.
+#![allow(dead_code)]
+
+use crate::search::TranspositionTable;
+use std::sync::atomic::{AtomicBool, AtomicI64, AtomicU64, Ordering::SeqCst};
+
+/// Number of node-entry polls seen since the last `reset`
+pub static POLLS: AtomicU64 = AtomicU64::new(0);
+/// Clear the running flag at the poll with this index (0 = the very first one); -1 = never
+pub static STOP_AT: AtomicI64 = AtomicI64::new(-1);
+/// Number of polls that happened after the hook cleared the flag
+pub static POLLS_AFTER_STOP: AtomicU64 = AtomicU64::new(0);
+/// Empty the transposition table at every node entry
+pub static TABLELESS: AtomicBool = AtomicBool::new(false);
+static STOPPED: AtomicBool = AtomicBool::new(false);
+
+pub fn reset(stop_at: i64, tableless: bool) {
+    POLLS.store(0, SeqCst);
+    POLLS_AFTER_STOP.store(0, SeqCst);
+    STOP_AT.store(stop_at, SeqCst);
+    TABLELESS.store(tableless, SeqCst);
+    STOPPED.store(false, SeqCst);
+}
+
+pub fn on_poll(continue_running: &AtomicBool, table: &mut TranspositionTable) {
+    let index = POLLS.fetch_add(1, SeqCst);
+    if STOPPED.load(SeqCst) {
+        POLLS_AFTER_STOP.fetch_add(1, SeqCst);
+    }
+    if STOP_AT.load(SeqCst) == index as i64 {
+        continue_running.store(false, SeqCst);
+        STOPPED.store(true, SeqCst);
+    }
+    if TABLELESS.load(SeqCst) {
+        table.clear();
+    }
+}
+
+/// Named schedule points of the UCI loop: sleep for VERIF_SLEEP_<NAME> milliseconds
+/// (if set) and log the event on stderr when VERIF_EVENTS is set.
+pub fn schedule_point(name: &str) {
+    if std::env::var_os("VERIF_EVENTS").is_some() {
+        eprintln!("verif-event {}", name);
+    }
+    if let Ok(value) = std::env::var(format!("VERIF_SLEEP_{}", name.to_uppercase())) {
+        if let Ok(millis) = value.parse::<u64>() {
+            std::thread::sleep(std::time::Duration::from_millis(millis));
+        }
+    }
+}
